@@ -20,8 +20,8 @@ type c17 struct{ base }
 
 func init() {
 	core.Register(c17{base{id: "C17", level: "exploration", quickB: 8, thoroughB: 32,
-		rule: "errors are built from a spec (base text + wrappers innermost-first over {WithCode, WithSeverity, WithHint, WithDetail, WithSource, WithConstraintName, fmt %w}); the flattening model computes the expected fields (outermost value, defaults ERROR/XXUUU, message = Go error text); each error is returned from a parser (simple Query and Parse) or a statement function (simple Query and Execute) and the ErrorResponse is parsed strictly and compared field for field. quick: exhaustive over all wrapper sequences up to depth 4 x 2 value variants + random depth <= 6; thorough: exhaustive depth 5 + 500k random depth <= 8. Non-trivial = at least two wrappers of which one repeats or is fmt-wrap/source/constraint; distinct = wrapper-kind sequence + context.",
-		need:        []string{"error_responses_compared", "with_source", "with_constraint", "repeated_decorator", "nil_error_reports", "empty_message_errors"},
+		rule: "errors are built from a spec (base text + wrappers innermost-first over {WithCode, WithSeverity, WithHint, WithDetail, WithSource, WithConstraintName, fmt %w}); the flattening model computes the expected fields (outermost value, defaults ERROR/XXUUU, message = Go error text); each error is returned from a parser (simple Query and Parse) or a statement function (simple Query and Execute) and the ErrorResponse is parsed strictly and compared field for field. shared sentinel values (one built error decorated further by several reports and also reported as is) must keep their own fields; quick: exhaustive over all wrapper sequences up to depth 4 x 2 value variants + random depth <= 6; thorough: exhaustive depth 5 + 500k random depth <= 8. Non-trivial = at least two wrappers of which one repeats or is fmt-wrap/source/constraint; distinct = wrapper-kind sequence + context.",
+		need:        []string{"error_responses_compared", "with_source", "with_constraint", "repeated_decorator", "nil_error_reports", "empty_message_errors", "shared_sentinel_reports"},
 		assumptions: append([]string{"hint, detail, constraint, code and severity values are non-empty NUL-free strings (an empty hint/detail is indistinguishable from 'not set' in the API); the error text and the source file/function may be empty and must still be sent as (empty) fields; a 'V' (non-localised severity) field equal to S is tolerated"}, commonAssumptions...)}})
 }
 
@@ -38,6 +38,9 @@ func c17wrap(k byte, rng *core.Rng, variant int) hs.Wrap {
 			return tag + " " + rng.Text(1+rng.Intn(30), true)
 		case 2:
 			return tag + " 100% of %s %d \n second line \t tab"
+		}
+		if rng.Bool() {
+			return rng.Ident(rng.BoundaryLen())
 		}
 		return tag + strings.Repeat("long ", 1+rng.Intn(300))
 	}
@@ -182,6 +185,31 @@ func (ch c17) Run(c *core.Ctx) {
 			spec.Wraps = append(spec.Wraps, c17wrap(core.Pick(rng, c17kinds), rng, rng.Intn(4)))
 		}
 		runSpec(spec, i)
+	}
+	// shared sentinel errors: one decorated error value is decorated further in several
+	// reports and also reported as it is; decorating must not change the shared value
+	nshared := nrand / 10
+	for i := c.Batch; i < nshared; i += nb {
+		idx = 30000000 + i
+		if !c.Begin(idx) || c.NViol() >= 10 {
+			continue
+		}
+		rng := core.NewRng(c.Seed, "C17s", 0, i)
+		inner := &hs.ErrSpec{Base: "sentinel " + rng.Text(1+rng.Intn(20), true)}
+		for d := rng.Intn(3); d > 0; d-- {
+			inner.Wraps = append(inner.Wraps, c17wrap(core.Pick(rng, c17kinds), rng, rng.Intn(3)))
+		}
+		shared := inner.Build()
+		for k := 0; k < 3; k++ {
+			spec := &hs.ErrSpec{Base: inner.Base, Wraps: append([]hs.Wrap{}, inner.Wraps...), Pre: shared, PreN: len(inner.Wraps)}
+			for d := 1 + rng.Intn(2); d > 0; d-- {
+				spec.Wraps = append(spec.Wraps, c17wrap(core.Pick(rng, []byte{'s', 'c', 'h', 'd', 'n', 'o'}), rng, rng.Intn(3)))
+			}
+			runSpec(spec, i+k)
+			// ... and the shared value itself, after others decorated it
+			runSpec(&hs.ErrSpec{Base: inner.Base, Wraps: inner.Wraps, Pre: shared, PreN: len(inner.Wraps)}, i+k+1)
+			c.Count("shared_sentinel_reports", 2)
+		}
 	}
 	if cl != nil {
 		cl.Finish()
